@@ -178,8 +178,9 @@ func (s *SelectStmt) ValidateFields(ctx *CheckCtx) error {
 	}
 	// A field must not be defined, directly or through other fields, in terms
 	// of itself: evaluating it would never end
+	done := map[string]bool{}
 	for _, f := range s.Fields {
-		if ref := findFieldReferenceCycle(f, map[string]bool{}); ref != nil {
+		if ref := findFieldReferenceCycle(f, map[string]bool{}, done); ref != nil {
 			return NewSyntaxError(ref.GetPos(), "Field %s is defined in terms of itself", ref.Name.Data)
 		}
 	}
@@ -193,7 +194,10 @@ func (s *SelectStmt) ValidateFields(ctx *CheckCtx) error {
 	return nil
 }
 
-func findFieldReferenceCycle(expr Expression, path map[string]bool) *FieldReferenceExpr {
+// path holds the names on the current chain of references, done the names
+// whose definition was searched completely without finding a cycle: each
+// field is followed once, however many references lead to it
+func findFieldReferenceCycle(expr Expression, path map[string]bool, done map[string]bool) *FieldReferenceExpr {
 	var found *FieldReferenceExpr
 	expr.Walk(func(e Expression) bool {
 		if found != nil {
@@ -205,9 +209,15 @@ func findFieldReferenceCycle(expr Expression, path map[string]bool) *FieldRefere
 				found = ref
 				return false
 			}
+			if done[name] {
+				return false
+			}
 			path[name] = true
-			found = findFieldReferenceCycle(ref.FieldExpr, path)
+			found = findFieldReferenceCycle(ref.FieldExpr, path, done)
 			delete(path, name)
+			if found == nil {
+				done[name] = true
+			}
 			// Do not let Walk descend into the referenced field again
 			return false
 		}
